@@ -14,7 +14,7 @@ structure Inv (s : St) : Prop where
   regLive : ∀ tok, 0 < s.thr.countP (regTok tok) → tok ∈ s.live
   setNew : ∀ tok ∈ s.settled, s.thr.countP (setTok tok) = 0
   disj : ∀ tok ∈ s.doneToks, tok ∉ s.live
-  rel : s.used = true → s.present = true → s.live = [] →
+  rel : s.used = true → s.present = true → s.live = [] → s.thr.countP (at_ .flushed) = 0 →
         s.thr.countP (at_ .found) = 0 → s.thr.countP (at_ .set) = 0 → s.thr.countP (at_ .bind) = 0 →
         s.armed = true
   /-- a thread inside the protocol constructor: its instance's creation has completed -/
@@ -55,19 +55,62 @@ theorem mv {l : List Th} {i tok0 m0 : Nat} {a : Pc} (h : l[i]? = some ⟨tok0, m
   · have := countP_set' (p := regTok tok) (t' := ⟨tok0, m0, b⟩) h
     simpa [regTok] using this
 
+/-! the request path: parked messages and their flush -/
+theorem countP_flushAll {p : Th → Bool} (hp : ∀ t, p (flushT t) = p t) (l : List Th) :
+    (flushAll l).countP p = l.countP p := by
+  induction l with
+  | nil => rfl
+  | cons t l ih => simp only [flushAll, List.map_cons, List.countP_cons, hp t] at *; rw [ih]
+
+theorem flushT_pc (t : Th) : (flushT t).pc ≠ .parked ∧ (flushT t).tok = t.tok ∧ (flushT t).m = t.m ∧
+    (t.pc ≠ .parked → flushT t = t) := by
+  unfold flushT; split <;> simp_all
+
+theorem flush_at (p : Pc) (hp : p ≠ .parked) (hf : p ≠ .flushed) (t : Th) : at_ p (flushT t) = at_ p t := by
+  unfold flushT at_
+  split
+  · rename_i h; simp only [h]; cases p <;> first | rfl | simp_all
+  · rfl
+
+theorem flush_setTok (tok : Nat) (t : Th) : setTok tok (flushT t) = setTok tok t := by
+  unfold flushT setTok
+  split
+  · rename_i h; simp only [h]; rfl
+  · rfl
+
+theorem flush_regTok (tok : Nat) (t : Th) : regTok tok (flushT t) = regTok tok t := by
+  unfold flushT regTok
+  split
+  · rename_i h; simp only [h]; rfl
+  · rfl
+
+theorem flushAll_no_parked (l : List Th) : (flushAll l).countP (at_ .parked) = 0 := by
+  rw [List.countP_eq_zero]
+  intro t ht
+  simp only [flushAll, List.mem_map] at ht
+  obtain ⟨u, _, rfl⟩ := ht
+  simp [at_, (flushT_pc u).1]
+
+/-- what is parked waits for a tree that is not there, and a registered slot has a message waiting for it -/
+structure Inv2 (s : St) : Prop where
+  pk : 0 < s.thr.countP (at_ .parked) → s.present = false
+  rq : s.requested = true → 0 < s.thr.countP (at_ .parked)
+
+theorem inv2_init : Inv2 {} := by constructor <;> simp
+
 theorem inv_thread (s s' : St) (i : Nat) (t : Th) (hI : Inv s) (ht : s.thr[i]? = some t)
     (hs : stepTh s i t = some s') : Inv s' := by
   obtain ⟨hsub, hsafe, honce, hborn, hrl, hsn, hdj, hrel, hct⟩ := hI
   obtain ⟨tok0, m0, pc0⟩ := t
-  cases pc0 with
-  | fin => simp [stepTh] at hs
-  | lookup =>
-    simp only [stepTh] at hs
-    simp at hs; subst hs
+  have look : ∀ (pc0 : Pc), (pc0 = .lookup ∨ pc0 = .flushed) → s.thr[i]? = some ⟨tok0, m0, pc0⟩ →
+      Inv (lookupStep s i ⟨tok0, m0, pc0⟩) := by
+    intro pc0 hpc ht
+    have hns : pc0 ≠ .set ∧ pc0 ≠ .bind ∧ pc0 ≠ .found := by rcases hpc with rfl | rfl <;> simp
+    unfold lookupStep
     cases hp : s.present
-    · obtain ⟨cP, cS, cR⟩ := mv ht .fin
-      simp at cS cR
-      simp only [hp, ↓reduceIte, Bool.false_eq_true]
+    · obtain ⟨cP, cS, cR⟩ := mv ht .parked
+      simp [hns.1, hns.2.1] at cS cR
+      simp only [Bool.false_eq_true, ↓reduceIte]
       refine ⟨hsub, ?_, ?_, ?_, ?_, ?_, hdj, ?_, ?_⟩
       all_goals (try dsimp only)
       · intro h; have := hsafe h; simp [hp] at this
@@ -75,12 +118,12 @@ theorem inv_thread (s s' : St) (i : Nat) (t : Th) (hI : Inv s) (ht : s.thr[i]? =
       · intro tok h; rw [cR tok] at h; exact hborn tok h
       · intro tok h; rw [cR tok] at h; exact hrl tok h
       · intro tok h; rw [cS tok]; exact hsn tok h
-      · intro _ hp'; simp at hp'
+      · intro _ hp'; simp [hp] at hp'
       · intro tok h; rw [cS tok, cR tok] at h; exact hct tok h
     · obtain ⟨cP, cS, cR⟩ := mv ht .found
       have cF := cP .found
-      simp at cF cS cR
-      simp only [hp, ↓reduceIte]
+      simp [hns.1, hns.2.1, hns.2.2] at cF cS cR
+      simp only [↓reduceIte]
       refine ⟨hsub, ?_, ?_, ?_, ?_, ?_, hdj, ?_, ?_⟩
       all_goals (try dsimp only)
       · intro h; have := hsafe h; simp [this]
@@ -88,8 +131,13 @@ theorem inv_thread (s s' : St) (i : Nat) (t : Th) (hI : Inv s) (ht : s.thr[i]? =
       · intro tok h; rw [cR tok] at h; exact hborn tok h
       · intro tok h; rw [cR tok] at h; exact hrl tok h
       · intro tok h; rw [cS tok]; exact hsn tok h
-      · intro _ _ _ hf _ _; omega
+      · intro _ _ _ _ hf _ _; omega
       · intro tok h; rw [cS tok, cR tok] at h; exact hct tok h
+  cases pc0 with
+  | fin => simp [stepTh] at hs
+  | parked => simp [stepTh] at hs
+  | lookup => simp only [stepTh] at hs; simp at hs; subst hs; exact look .lookup (.inl rfl) ht
+  | flushed => simp only [stepTh] at hs; simp at hs; subst hs; exact look .flushed (.inr rfl) ht
   | found =>
     simp only [stepTh] at hs
     split at hs
@@ -113,7 +161,7 @@ theorem inv_thread (s s' : St) (i : Nat) (t : Th) (hI : Inv s) (ht : s.thr[i]? =
         · intro tok h; rw [cR tok] at h; exact hborn tok h
         · intro tok h; rw [cR tok] at h; exact hrl tok h
         · intro tok h; rw [cS tok]; exact hsn tok h
-        · intro _ _ hl _ _ _; simp [hl]
+        · intro _ _ hl _ _ _ _; simp [hl]
         · intro tok h; rw [cS tok, cR tok] at h; exact hct tok h
       · split at hs
         · -- the instance exists: hand over
@@ -180,12 +228,20 @@ theorem inv_thread (s s' : St) (i : Nat) (t : Th) (hI : Inv s) (ht : s.thr[i]? =
   | set =>
     simp only [stepTh] at hs
     simp at hs; subst hs
-    obtain ⟨cP, cS0, cR0⟩ := mv ht .bind
-    have cS : ∀ tok, (s.thr.set i ⟨tok0, m0, .bind⟩).countP (setTok tok) + (if tok0 = tok then 1 else 0)
+    obtain ⟨cP0, cS0, cR0⟩ := mv ht .bind
+    have fS : ∀ tok, (flushAll (s.thr.set i ⟨tok0, m0, .bind⟩)).countP (setTok tok)
+        = (s.thr.set i ⟨tok0, m0, .bind⟩).countP (setTok tok) := fun tok => countP_flushAll (flush_setTok tok) _
+    have fR : ∀ tok, (flushAll (s.thr.set i ⟨tok0, m0, .bind⟩)).countP (regTok tok)
+        = (s.thr.set i ⟨tok0, m0, .bind⟩).countP (regTok tok) := fun tok => countP_flushAll (flush_regTok tok) _
+    have cP : ∀ p, p ≠ .parked → p ≠ .flushed →
+        (flushAll (s.thr.set i ⟨tok0, m0, .bind⟩)).countP (at_ p) + (if Pc.set = p then 1 else 0)
+        = s.thr.countP (at_ p) + (if Pc.bind = p then 1 else 0) := by
+      intro p h1 h2; rw [countP_flushAll (flush_at p h1 h2)]; exact cP0 p
+    have cS : ∀ tok, (flushAll (s.thr.set i ⟨tok0, m0, .bind⟩)).countP (setTok tok) + (if tok0 = tok then 1 else 0)
         = s.thr.countP (setTok tok) := by
-      intro tok; have := cS0 tok; simpa using this
-    have cR : ∀ tok, (s.thr.set i ⟨tok0, m0, .bind⟩).countP (regTok tok) = s.thr.countP (regTok tok) := by
-      intro tok; have := cR0 tok
+      intro tok; rw [fS]; have := cS0 tok; simpa using this
+    have cR : ∀ tok, (flushAll (s.thr.set i ⟨tok0, m0, .bind⟩)).countP (regTok tok) = s.thr.countP (regTok tok) := by
+      intro tok; rw [fR]; have := cR0 tok
       by_cases e : tok0 = tok
       · subst e; simp at this; omega
       · simp [e] at this; omega
@@ -197,7 +253,7 @@ theorem inv_thread (s s' : St) (i : Nat) (t : Th) (hI : Inv s) (ht : s.thr[i]? =
       have h1 := setTok_le_regTok tok0 s.thr
       have h2 := honce tok0
       omega
-    have cB := cP .bind
+    have cB := cP .bind (by simp) (by simp)
     simp at cB
     refine ⟨?_, ?_, ?_, ?_, ?_, ?_, hdj, ?_, ?_⟩
     all_goals (try dsimp only)
@@ -263,7 +319,7 @@ theorem inv_thread (s s' : St) (i : Nat) (t : Th) (hI : Inv s) (ht : s.thr[i]? =
       · subst e; rw [if_pos rfl] at this; exact hct _ (by omega)
       · rw [if_neg e] at this; exact hct _ (by omega)
 
-theorem inv_step (s s' : St) (a : Act) (hI : Inv s) (hs : step s a = some s') : Inv s' := by
+theorem inv_step (s s' : St) (a : Act) (hI : Inv s) (h2 : Inv2 s) (hs : step s a = some s') : Inv s' := by
   cases a with
   | thread i =>
     simp only [step] at hs
@@ -279,8 +335,9 @@ theorem inv_step (s s' : St) (a : Act) (hI : Inv s) (hs : step s a = some s') : 
     · intro t h; apply hborn t; simpa [List.countP_append, regTok] using h
     · intro t h; apply hrl t; simpa [List.countP_append, regTok] using h
     · intro t h; have := hsn t h; simpa [List.countP_append, setTok] using this
-    · intro hu hp hl hf hse hb
+    · intro hu hp hl hfl hf hse hb
       apply hrel hu hp hl
+      · simpa [List.countP_append, at_] using hfl
       · simpa [List.countP_append, at_] using hf
       · simpa [List.countP_append, at_] using hse
       · simpa [List.countP_append, at_] using hb
@@ -321,7 +378,7 @@ theorem inv_step (s s' : St) (a : Act) (hI : Inv s) (hs : step s a = some s') : 
         rcases h with h | h
         · intro hc; simp at hc; exact hdj t h hc.1
         · subst h; simp
-      · intro _ _ hl _ _ _; simp at hl; simp; left; exact hl
+      · intro _ _ hl _ _ _ _; simp at hl; simp; left; exact hl
       · intro t h; have := hct t h
         by_cases e : t = tok
         · subst e; omega
@@ -333,6 +390,35 @@ theorem inv_step (s s' : St) (a : Act) (hI : Inv s) (hs : step s a = some s') : 
     obtain ⟨hsub, hsafe, honce, hborn, hrl, hsn, hdj, hrel, hct⟩ := hI
     simp [step] at hs; subst hs
     exact ⟨hsub, hsafe, honce, hborn, hrl, hsn, hdj, hrel, hct⟩
+  | treeResp =>
+    obtain ⟨hsub, hsafe, honce, hborn, hrl, hsn, hdj, hrel, hct⟩ := hI
+    simp only [step] at hs
+    split at hs
+    · rename_i hc
+      simp at hs; subst hs
+      have fS : ∀ tok, (flushAll s.thr).countP (setTok tok) = s.thr.countP (setTok tok) :=
+        fun tok => countP_flushAll (flush_setTok tok) _
+      have fR : ∀ tok, (flushAll s.thr).countP (regTok tok) = s.thr.countP (regTok tok) :=
+        fun tok => countP_flushAll (flush_regTok tok) _
+      refine ⟨hsub, ?_, ?_, ?_, ?_, ?_, hdj, ?_, ?_⟩
+      all_goals (try dsimp only)
+      · intro _; simp
+      · intro tok; rw [fR]; exact honce tok
+      · intro tok h; rw [fR] at h; exact hborn tok h
+      · intro tok h; rw [fR] at h; exact hrl tok h
+      · intro tok h; rw [fS]; exact hsn tok h
+      · intro _ _ _ hfl _ _ _
+        -- the slot was registered: a message was parked for it, and is flushed now
+        have hpk := h2.rq hc.1
+        have : 0 < (flushAll s.thr).countP (at_ .flushed) := by
+          rw [List.countP_pos_iff] at hpk ⊢
+          obtain ⟨t, ht, hpc⟩ := hpk
+          refine ⟨flushT t, List.mem_map_of_mem ht, ?_⟩
+          simp [at_] at hpc
+          simp [at_, flushT, hpc]
+        omega
+      · intro tok h; rw [fS, fR] at h; exact hct tok h
+    · simp at hs
   | doneRefused tok =>
     simp only [step] at hs
     split at hs
@@ -407,14 +493,128 @@ theorem inv_step (s s' : St) (a : Act) (hI : Inv s) (hs : step s a = some s') : 
         · subst e; rw [if_pos rfl] at h; exact hct _ (by omega)
         · rw [if_neg e] at h; exact hct _ (by omega)
 
-theorem inv_run (as : List Act) (s : St) (h : Inv s) : Inv (run s as) := by
+theorem lookupStep_frame (s : St) (i : Nat) (t : Th) :
+    (lookupStep s i t).doneToks = s.doneToks ∧ (lookupStep s i t).present = s.present ∧
+    (lookupStep s i t).live = s.live ∧ (lookupStep s i t).constructed = s.constructed ∧
+    (lookupStep s i t).handed = s.handed := by
+  unfold lookupStep; split <;> simp
+
+/-- a thread step never removes a done marker or the tree -/
+theorem stepTh_frame (s s' : St) (i : Nat) (t : Th) (hs : stepTh s i t = some s') :
+    s'.doneToks = s.doneToks ∧ (s.present = true → s'.present = true) := by
+  obtain ⟨t0, m0, pc0⟩ := t
+  cases pc0 with
+  | lookup => simp only [stepTh] at hs; simp at hs; subst hs; exact ⟨(lookupStep_frame _ _ _).1, fun h => by rw [(lookupStep_frame _ _ _).2.1]; exact h⟩
+  | flushed => simp only [stepTh] at hs; simp at hs; subst hs; exact ⟨(lookupStep_frame _ _ _).1, fun h => by rw [(lookupStep_frame _ _ _).2.1]; exact h⟩
+  | parked => simp [stepTh] at hs
+  | fin => simp [stepTh] at hs
+  | found =>
+    simp only [stepTh] at hs
+    split at hs
+    · simp at hs
+    · split at hs
+      · simp at hs; subst hs; exact ⟨rfl, id⟩
+      · split at hs <;> (simp at hs; subst hs; exact ⟨rfl, id⟩)
+  | set => simp only [stepTh] at hs; simp at hs; subst hs; exact ⟨rfl, fun _ => rfl⟩
+  | bind => simp only [stepTh] at hs; simp at hs; subst hs; exact ⟨rfl, id⟩
+
+theorem inv2_step (s s' : St) (a : Act) (h2 : Inv2 s) (hs : step s a = some s') : Inv2 s' := by
+  obtain ⟨hpk, hrq⟩ := h2
+  cases a with
+  | arrive tok m =>
+    simp [step] at hs; subst hs
+    exact ⟨by simpa [List.countP_append, at_] using hpk, by simpa [List.countP_append, at_] using hrq⟩
+  | localStart tok =>
+    simp only [step] at hs
+    split at hs
+    · simp at hs
+    · simp at hs; subst hs
+      exact ⟨by simpa [List.countP_append, at_] using hpk, by simpa [List.countP_append, at_] using hrq⟩
+  | peerReq => simp [step] at hs; subst hs; exact ⟨hpk, hrq⟩
+  | doneRefused tok =>
+    simp only [step] at hs
+    split at hs
+    · simp at hs; subst hs; exact ⟨hpk, hrq⟩
+    · simp at hs
+  | done tok =>
+    simp only [step] at hs
+    split at hs
+    · simp at hs; subst hs; exact ⟨hpk, hrq⟩
+    · split at hs
+      · simp at hs; subst hs; exact ⟨hpk, hrq⟩
+      · simp at hs
+  | expire =>
+    simp only [step] at hs
+    split at hs
+    · simp at hs; subst hs; exact ⟨fun _ => rfl, by simp⟩
+    · simp at hs
+  | treeResp =>
+    simp only [step] at hs
+    split at hs
+    · simp at hs; subst hs
+      exact ⟨fun h => by rw [flushAll_no_parked] at h; omega, by simp⟩
+    · simp at hs
+  | thread i =>
+    simp only [step] at hs
+    split at hs
+    · rename_i t ht
+      obtain ⟨t0, m0, pc0⟩ := t
+      have look : ∀ pc0, (pc0 = .lookup ∨ pc0 = .flushed) → s.thr[i]? = some ⟨t0, m0, pc0⟩ →
+          Inv2 (lookupStep s i ⟨t0, m0, pc0⟩) := by
+        intro pc0 hpc ht
+        have hnp : pc0 ≠ .parked := by rcases hpc with rfl | rfl <;> simp
+        unfold lookupStep
+        cases hp : s.present
+        · simp only [Bool.false_eq_true, ↓reduceIte]
+          have c := (mv ht .parked).1 .parked
+          simp [hnp] at c
+          exact ⟨fun _ => rfl,
+            fun _ => by show 0 < List.countP (at_ .parked) (s.thr.set i ⟨t0, m0, .parked⟩); omega⟩
+        · simp only [↓reduceIte]
+          have c := (mv ht .found).1 .parked
+          simp [hnp] at c
+          exact ⟨fun h => by rw [c] at h; have := hpk h; simp [hp] at this, fun h => by rw [c]; exact hrq h⟩
+      cases pc0 with
+      | lookup => simp only [stepTh] at hs; simp at hs; subst hs; exact look .lookup (.inl rfl) ht
+      | flushed => simp only [stepTh] at hs; simp at hs; subst hs; exact look .flushed (.inr rfl) ht
+      | parked => simp [stepTh] at hs
+      | fin => simp [stepTh] at hs
+      | found =>
+        have c : ∀ b, b ≠ .parked → (s.thr.set i ⟨t0, m0, b⟩).countP (at_ .parked) = s.thr.countP (at_ .parked) := by
+          intro b hb; have := (mv ht b).1 .parked; simp [hb] at this; omega
+        simp only [stepTh] at hs
+        split at hs
+        · simp at hs
+        · split at hs
+          · simp at hs; subst hs
+            exact ⟨fun h => by rw [c .fin (by simp)] at h; exact hpk h, fun h => by rw [c .fin (by simp)]; exact hrq h⟩
+          · split at hs
+            · simp at hs; subst hs
+              exact ⟨fun h => by rw [c .fin (by simp)] at h; exact hpk h, fun h => by rw [c .fin (by simp)]; exact hrq h⟩
+            · simp at hs; subst hs
+              exact ⟨fun h => by rw [c .set (by simp)] at h; exact hpk h, fun h => by rw [c .set (by simp)]; exact hrq h⟩
+      | set =>
+        simp only [stepTh] at hs; simp at hs; subst hs
+        exact ⟨fun h => by rw [flushAll_no_parked] at h; omega, by simp⟩
+      | bind =>
+        have c := (mv ht .fin).1 .parked
+        simp at c
+        simp only [stepTh] at hs; simp at hs; subst hs
+        exact ⟨fun h => by rw [c] at h; exact hpk h, fun h => by rw [c]; exact hrq h⟩
+    · simp at hs
+
+theorem inv_run' (as : List Act) (s : St) (h : Inv s) (h2 : Inv2 s) : Inv (run s as) ∧ Inv2 (run s as) := by
   induction as generalizing s with
-  | nil => exact h
+  | nil => exact ⟨h, h2⟩
   | cons a as ih =>
     simp only [run]
     split
-    · exact ih _ (inv_step _ _ _ h ‹_›)
-    · exact ih _ h
+    · rename_i s' hs
+      exact ih _ (inv_step _ _ _ h h2 hs) (inv2_step _ _ _ h2 hs)
+    · exact ih _ h h2
+
+theorem inv_run (as : List Act) (s : St) (h : Inv s) (h2 : Inv2 s := by exact inv2_init) : Inv (run s as) :=
+  (inv_run' as s h h2).1
 
 /-- **finished stays finished, and is no longer listed**: a done marker is never removed, and a
 token that is marked done is never among the listed instances again. -/
@@ -426,17 +626,7 @@ theorem c11_done_monotone (s s' : St) (a : Act) (tok : Nat) (hs : step s a = som
     simp only [step] at hs
     split at hs
     · rename_i t _
-      obtain ⟨t0, m0, pc0⟩ := t
-      cases pc0 <;> simp only [stepTh] at hs
-      · simp at hs; subst hs; exact hd
-      · split at hs
-        · simp at hs
-        · split at hs
-          · simp at hs; subst hs; exact hd
-          · split at hs <;> (simp at hs; subst hs; exact hd)
-      · simp at hs; subst hs; exact hd
-      · simp at hs; subst hs; exact hd
-      · simp at hs
+      rw [(stepTh_frame s s' i t hs).1]; exact hd
     · simp at hs
   | done t =>
     simp only [step] at hs
@@ -456,6 +646,11 @@ theorem c11_done_monotone (s s' : St) (a : Act) (tok : Nat) (hs : step s a = som
     · simp at hs
     · simp at hs; subst hs; exact hd
   | peerReq => simp [step] at hs; subst hs; exact hd
+  | treeResp =>
+    simp only [step] at hs
+    split at hs
+    · simp at hs; subst hs; exact hd
+    · simp at hs
   | doneRefused t =>
     simp only [step] at hs
     split at hs
@@ -530,17 +725,7 @@ theorem c11_grace (s s' : St) (a : Act) (hs : step s a = some s') (hp : s.presen
     simp only [step] at hs
     split at hs
     · rename_i t _
-      obtain ⟨t0, m0, pc0⟩ := t
-      cases pc0 <;> simp only [stepTh] at hs
-      · simp at hs; subst hs; exact hp
-      · split at hs
-        · simp at hs
-        · split at hs
-          · simp at hs; subst hs; exact hp
-          · split at hs <;> (simp at hs; subst hs; exact hp)
-      · simp at hs; subst hs; rfl
-      · simp at hs; subst hs; exact hp
-      · simp at hs
+      exact (stepTh_frame s s' i t hs).2 hp
     · simp at hs
   | done t =>
     simp only [step] at hs
@@ -556,6 +741,11 @@ theorem c11_grace (s s' : St) (a : Act) (hs : step s a = some s') (hp : s.presen
     · simp at hs
     · simp at hs; subst hs; exact hp
   | peerReq => simp [step] at hs; subst hs; exact hp
+  | treeResp =>
+    simp only [step] at hs
+    split at hs
+    · simp at hs; subst hs; rfl
+    · simp at hs
   | doneRefused t =>
     simp only [step] at hs
     split at hs
@@ -572,14 +762,16 @@ theorem c11_released (as : List Act)
     ∃ s', step (run {} as) .expire = some s' ∧ s'.present = false := by
   have hI := inv_run as {} inv_init
   generalize run {} as = s at *
+  have h0 : s.thr.countP (at_ .flushed) = 0 := by
+    rw [List.countP_eq_zero]; intro t ht; rcases hq t ht with h | h <;> simp [at_, h]
   have h1 : s.thr.countP (at_ .found) = 0 := by
     rw [List.countP_eq_zero]; intro t ht; rcases hq t ht with h | h <;> simp [at_, h]
   have h2 : s.thr.countP (at_ .set) = 0 := by
     rw [List.countP_eq_zero]; intro t ht; rcases hq t ht with h | h <;> simp [at_, h]
   have h3 : s.thr.countP (at_ .bind) = 0 := by
     rw [List.countP_eq_zero]; intro t ht; rcases hq t ht with h | h <;> simp [at_, h]
-  have ha := hI.rel hu hp hl h1 h2 h3
-  exact ⟨ha, { s with present := false, armed := false }, by simp [step, ha], rfl⟩
+  have ha := hI.rel hu hp hl h0 h1 h2 h3
+  exact ⟨ha, { s with present := false, armed := false, requested := false }, by simp [step, ha], rfl⟩
 
 /-! ### peers asking for the tree, other instances, refused and repeated `Done()` (round 4) -/
 
@@ -655,7 +847,7 @@ theorem c11_live_instance_served (as : List Act) (t m : Nat) (ht : t ∈ (run {}
   have hlive : t ∈ s.live := hI.sub t ht
   have hnd : t ∉ s.doneToks := fun hd => hI.disj t hd hlive
   have hp : s.present = true := (hI.safe (by intro e; simp [e] at ht)).1
-  simp [run, step, stepTh, hp, hm, holdsMux, hnd, hlive, List.countP_append]
+  simp [run, step, stepTh, lookupStep, hp, hm, holdsMux, hnd, hlive, List.countP_append]
 
 /-- `Done()` refused by the instance's `OnDoneCallback`, and `Done()` called once more on a finished
 instance (in any reachable state), change nothing at all -/
@@ -683,6 +875,53 @@ example :
     (run {} as).doneToks = [1, 2] ∧ (run {} as).handed = [(2, 7)] ∧ (run {} as).peerAsked = 3 ∧
     (run {} as).peerAnswered = 2 ∧ (run {} as).present = false ∧
     (run {} (as.take 7)).live = [1, 2] := by decide
+
+
+/-! ### the request path: parked messages (round 4; the assumption "a message that finds no tree is not followed" is gone) -/
+
+/-- **nothing stays parked while the tree is stored**: in every reachable state a message waiting in the
+pending list waits for a tree that is not there — whenever the tree is stored (by a peer's answer, a
+local start, or the creation of an instance for an arrival that had looked the tree up before it was
+released) everything parked for it is given to `TransmitMsg` again. -/
+theorem c11_parked_not_stuck (as : List Act) (t : Th) (ht : t ∈ (run {} as).thr) (hp : t.pc = .parked) :
+    (run {} as).present = false := by
+  have h2 := (inv_run' as {} inv_init inv2_init).2
+  apply h2.pk
+  rw [List.countP_pos_iff]
+  exact ⟨t, ht, by simp [at_, hp]⟩
+
+/-- **the peer's answer is accepted and releases what waits**: in every reachable state in which the tree
+is requested, the tree response is accepted, stores the tree, and no message stays parked. -/
+theorem c11_response_releases_parked (as : List Act) (hr : (run {} as).requested = true) :
+    ∃ s', step (run {} as) .treeResp = some s' ∧ s'.present = true ∧ ∀ t ∈ s'.thr, t.pc ≠ .parked := by
+  have h2 := (inv_run' as {} inv_init inv2_init).2
+  generalize run {} as = s at *
+  have hp : s.present = false := h2.pk (h2.rq hr)
+  refine ⟨{ s with present := true, armed := false, requested := false, thr := flushAll s.thr },
+    by simp [step, hr, hp], rfl, ?_⟩
+  intro t ht
+  simp only [flushAll, List.mem_map] at ht
+  obtain ⟨u, _, rfl⟩ := ht
+  exact (flushT_pc u).1
+
+/-- **the creation path as it was before /repo fafcac0 leaves a message parked for ever**: arrival A looks
+the tree up and waits; the last instance finishes, the grace period passes; message B misses the tree (parked,
+tree requested); A goes on and stores the tree without a flush: B is parked although the tree is stored, and
+the peer's answer is refused (the slot is not requested any more).  The code as it is flushes B. -/
+theorem c11_old_creation_leaves_message_parked :
+    let sch : List Act := [.localStart 1, .thread 0, .thread 0, .arrive 2 5, .thread 1, .done 1, .expire,
+      .arrive 3 6, .thread 2, .thread 1, .thread 1]
+    (runOld {} sch).present = true ∧ (runOld {} sch).thr[2]? = some ⟨3, 6, .parked⟩ ∧
+    step (runOld {} sch) .treeResp = none ∧
+    (run {} sch).present = true ∧ (run {} sch).thr[2]? = some ⟨3, 6, .flushed⟩ := by decide
+
+/-- non-vacuity: a message misses the released tree, is parked, the peer's answer arrives, the message creates
+its instance -/
+example :
+    let sch : List Act := [.localStart 1, .thread 0, .thread 0, .done 1, .expire, .arrive 2 5, .thread 1,
+      .treeResp, .thread 1, .thread 1, .thread 1, .thread 1]
+    (run {} (sch.take 7)).requested = true ∧ (run {} (sch.take 7)).thr[1]? = some ⟨2, 5, .parked⟩ ∧
+    (run {} sch).live = [2] ∧ (run {} sch).handed = [(2, 5)] ∧ (run {} sch).constructed = [1, 2] := by decide
 
 
 /-! ### non-vacuity -/
@@ -915,6 +1154,7 @@ def treeOps (s : C11.St) : C11.Act → List VOp
   | .thread i => match s.thr[i]? with
       | some t => match t.pc with
           | .lookup => [.refresh]                       -- `getAndRefresh`
+          | .flushed => [.refresh]
           | .found => if t.tok ∈ s.doneToks ∧ s.live = [] then [.remove] else []   -- late message: `cleanTreeStorage`
           | .set => [.set]                              -- `treeStorage.Set`
           | _ => []
@@ -928,6 +1168,7 @@ def treeOps (s : C11.St) : C11.Act → List VOp
   | .localStart _ => []
   | .peerReq => []                                       -- `treeStorage.Get`: no refresh
   | .doneRefused _ => []
+  | .treeResp => [.set]                                  -- `RegisterTree`
 
 def cview (s : C11.St) : View := { present := s.present, armed := s.armed }
 
@@ -978,9 +1219,16 @@ theorem c11_model_uses_store_ops (s s' : C11.St) (a : C11.Act) (h : C11.step s a
     · rename_i t ht
       obtain ⟨t0, m0, pc0⟩ := t
       simp only [treeOps, ht]
-      cases pc0 <;> simp only [C11.stepTh] at h
-      · simp at h; subst h; simp [vstep, cview]
-      · split at h
+      cases pc0 with
+      | lookup =>
+        simp only [C11.stepTh] at h; simp at h; subst h
+        simp only [C11.lookupStep]; split <;> simp [vstep, cview]
+      | flushed =>
+        simp only [C11.stepTh] at h; simp at h; subst h
+        simp only [C11.lookupStep]; split <;> simp [vstep, cview]
+      | found =>
+        simp only [C11.stepTh] at h
+        split at h
         · simp at h
         · split at h
           · rename_i hd
@@ -989,9 +1237,15 @@ theorem c11_model_uses_store_ops (s s' : C11.St) (a : C11.Act) (h : C11.step s a
             split <;> simp_all [vstep]
           · rename_i hd
             split at h <;> (simp at h; subst h; simp [cview, hd])
-      · simp at h; subst h; simp [vstep, cview]
-      · simp at h; subst h; simp [cview]
-      · simp at h
+      | set => simp only [C11.stepTh] at h; simp at h; subst h; simp [vstep, cview]
+      | bind => simp only [C11.stepTh] at h; simp at h; subst h; simp [cview]
+      | parked => simp [C11.stepTh] at h
+      | fin => simp [C11.stepTh] at h
+    · simp at h
+  | treeResp =>
+    simp only [C11.step] at h
+    split at h
+    · simp at h; subst h; simp [treeOps, vstep, cview]
     · simp at h
 
 /-- **the routine as it was before repair 2e39a89 deletes a tree that was just stored**: a removal is
